@@ -30,19 +30,8 @@ def run(ctx):
     names = [v["name"] for v in V]
     byvariant = {v["variant"]: v for v in V}
 
-    # ---- D1 name tables
-    parse, default_ok = parse_table(ctx)
-    ctx.check(default_ok is True, "D1-PARSE-DEFAULT", FROMSTR_VAR, "default", "unknown name -> Err(ParseVariable(name))",
-              "default arm does not return Err(ParseVariable(<the name>))")
-    for v in V:
-        got = parse.get(v["name"])
-        ctx.check(got is not None and got[0] == v["variant"] and got[1], "D1-PARSE", FROMSTR_VAR, "name=%s" % v["name"],
-                  "%s -> %s" % (v["name"], v["variant"]),
-                  "%r parses to %s (scrutinee is input: %s), expected %s" % (v["name"], got and got[0], got and got[1], v["variant"]))
-    extra = sorted(set(parse) - set(names))
-    ctx.check(not extra, "D1-PARSE", FROMSTR_VAR, "no-extra-literals", "accepted literals = the 23 names",
-              "from_str accepts names outside pkg_summary(5): %s" % extra)
-    ctx.floor("D1-PARSE", FROMSTR_VAR, "literals", len(parse), 23)
+    # ---- D1 name tables (the parse half is shared with C08)
+    parse = parse_rules(ctx, V, "D1-PARSE")
     disp = display_table(ctx, DISPLAY_VAR, VAR)
     for v in V:
         got = disp.get(v["variant"])
@@ -140,36 +129,8 @@ def run(ctx):
         ctx.check(not revs, "D3-A-ORDER", DISPLAY_SUM, "no-reorder", "no rev()/sort on values", "values are reordered (%s) before printing" % [t["func"]["path"] for t in revs])
 
     # ---- D4 kind consistency
-    # (i) who may mutate `entries`
-    writers_found = set()
-    for key, f in fx.bodies():
-        for b in f["blocks"]:
-            if b["cleanup"]:
-                continue
-            items = [(s["rv"], s["span"]) for s in b["stmts"] if s["k"] == "assign"]
-            for rv, spn in items:
-                pl = rv.get("place") if rv["k"] in ("ref", "rawptr") else None
-                if pl and (rv.get("bk") == "mut" or "Mut" in str(rv.get("bk"))):
-                    if any(e["k"] == "field" and e.get("name") == "entries" and e.get("ty", "").startswith("std::collections::HashMap<summary::SummaryVariable") for e in pl["p"]):
-                        writers_found.add(key)
-            for s in b["stmts"]:
-                if s["k"] == "assign":
-                    pl = s["place"]
-                    if pl["p"] and any(e["k"] == "field" and e.get("name") == "entries" and e.get("ty", "").startswith("std::collections::HashMap<summary::SummaryVariable") for e in pl["p"]):
-                        writers_found.add(key)
-    # a function that only removes (clear/remove/retain/drain/...) cannot store a value of the wrong kind
-    HARMLESS = {"clear", "remove", "remove_entry", "retain", "drain", "shrink_to_fit", "shrink_to", "reserve", "try_reserve", "len", "is_empty", "capacity"}
-    for k in sorted(writers_found - set(WRITERS)):
-        uses = [e for p in (ctx.paths(k) or []) for e in p.events if e.kind == "call" and e.args and
-                mentions(e.args[0], lambda s: s[0] == "field" and s[3] == "entries") and isinstance(e.args[0], tuple) and e.args[0][0] == "refmut"]
-        stores = [e for p in (ctx.paths(k) or []) for e in p.events if e.kind == "store" and mentions(e.place, lambda s: s[0] == "field" and s[3] == "entries")]
-        if uses and not stores and all(e.name.split("::")[-1] in HARMLESS for e in uses):
-            writers_found.discard(k)
-    unexpected = sorted(k for k in writers_found if k not in WRITERS)
-    ctx.check(not unexpected, "D4-WHO-WRITES", "summary::Summary.entries", "writers",
-              "only %s take &mut entries" % sorted(writers_found),
-              "functions other than insert_or_update/insert_or_push mutate Summary.entries: %s (kind consistency of stored values is no longer guaranteed)" % unexpected)
-    ctx.floor("D4-WHO-WRITES", "summary::Summary.entries", "writer functions", len(writers_found & set(WRITERS)), 2)
+    # (i) who may mutate `entries` (shared with C08)
+    who_writes(ctx, "D4-WHO-WRITES")
 
     # (ii)-(iv) accessors (shared with C08)
     accessors(ctx, V, "D4-ACCESSOR", "D4-PAYLOAD")
